@@ -21,66 +21,13 @@ import (
 	"pgregory.net/rapid"
 )
 
-// ---- reference implementation (no encoding/asn1) ----
-
-func refDERLen(n int) []byte {
-	if n < 128 {
-		return []byte{byte(n)}
-	}
-	var b []byte
-	for v := n; v > 0; v >>= 8 {
-		b = append([]byte{byte(v & 0xff)}, b...)
-	}
-	return append([]byte{0x80 | byte(len(b))}, b...)
-}
-
-// two's complement, minimal length, computed arithmetically
-func refDERInt(n *gobig.Int) []byte {
-	var content []byte
-	if n.Sign() >= 0 {
-		content = n.Bytes()
-		if len(content) == 0 {
-			content = []byte{0}
-		} else if content[0]&0x80 != 0 {
-			content = append([]byte{0}, content...)
-		}
-	} else {
-		// smallest L with -2^(8L-1) <= n
-		L := 1
-		for {
-			lim := new(gobig.Int).Lsh(gobig.NewInt(1), uint(8*L-1))
-			lim.Neg(lim)
-			if n.Cmp(lim) >= 0 {
-				break
-			}
-			L++
-		}
-		v := new(gobig.Int).Lsh(gobig.NewInt(1), uint(8*L))
-		v.Add(v, n)
-		raw := v.Bytes()
-		content = make([]byte, L)
-		copy(content[L-len(raw):], raw)
-	}
-	out := append([]byte{0x02}, refDERLen(len(content))...)
-	return append(out, content...)
-}
+// ---- reference implementation (no encoding/asn1): vfh.RefHashCommit ----
 
 func refHashCommitBytes(values []*gobig.Int, issig bool) []byte {
-	var content []byte
-	if issig {
-		content = append(content, 0x01, 0x01, 0xff)
-	}
-	content = append(content, refDERInt(gobig.NewInt(int64(len(values))))...)
-	for _, v := range values {
-		content = append(content, refDERInt(v)...)
-	}
-	out := append([]byte{0x30}, refDERLen(len(content))...)
-	return append(out, content...)
+	return vfh.RefHashCommitBytes(values, issig)
 }
-
 func refHashCommit(values []*gobig.Int, issig bool) *gobig.Int {
-	h := sha256.Sum256(refHashCommitBytes(values, issig))
-	return new(gobig.Int).SetBytes(h[:])
+	return vfh.RefHashCommit(values, issig)
 }
 
 func refGetHashNumber(a, b *gobig.Int, index int, bitlen uint) *gobig.Int {
